@@ -58,11 +58,13 @@ def norm(defpath):
 
 
 class Prov:
-    def __init__(self, fn, transparent=None):
+    def __init__(self, fn, transparent=None, opaque=()):
         self.fn = fn
         self.transparent = dict(TRANSPARENT_CALLS)
         if transparent:
             self.transparent.update(transparent)
+        for o in opaque:
+            self.transparent.pop(o, None)
         self.defs = {}       # local -> list of (bb, idx or 'term', kind, payload)
         self.is_closure = fn.get("kind") == "Closure"
         for bi, b in enumerate(fn.blocks):
